@@ -66,6 +66,7 @@ def _shapes(n: int) -> Iterator[dict]:
     for k in (0, 1, 2, 3):
         yield {'op': 'extend', 'nd': k}
         yield {'op': 'iadd', 'nd': k}
+        yield {'op': 'iadd', 'nd': k, 'stmt': True}
     ends = sorted({0, 1, n - 1, n}) + [None]
     for i in ends:
         for j in ends:
@@ -92,7 +93,7 @@ def list_sweep(include_views: bool = True) -> Iterator[dict]:
                 size = n
                 for sh in _shapes(size):
                     op: dict = {'f': fam, 'cls': cname, 'mi': mi, 'prop': prop, 'op': sh['op']}
-                    for key in ('i', 'j', 'k'):
+                    for key in ('i', 'j', 'k', 'stmt'):
                         if key in sh:
                             op[key] = sh[key]
                     nd = sh.get('nd', 0)
